@@ -38,6 +38,8 @@ pub enum BinaryRequest {
     QuitQuietly(binary::QuitRequest),
     ItemTooLarge(binary::SetRequest),
     Stats(binary::StatsRequest),
+    /// protocol command that is known but not implemented (touch, GAT, SASL)
+    NotSupported(binary::NoopRequest),
 }
 
 impl BinaryRequest {
@@ -70,6 +72,7 @@ impl BinaryRequest {
 
             BinaryRequest::Noop(request)
             | BinaryRequest::Version(request)
+            | BinaryRequest::NotSupported(request)
             | BinaryRequest::Stats(request) => &request.header,
 
             BinaryRequest::Flush(request) | BinaryRequest::FlushQuietly(request) => &request.header,
@@ -291,7 +294,9 @@ impl MemcacheBinaryCodec {
             | Some(binary::Command::SaslListMechs)
             | Some(binary::Command::SaslStep) => {
                 error!("Command not supported, opcode: {:?}", self.header.opcode);
-                Ok(None)
+                Ok(Some(BinaryRequest::NotSupported(binary::NoopRequest {
+                    header: self.header,
+                })))
             }
 
             Some(binary::Command::OpCodeMax) => {
